@@ -44,4 +44,68 @@ theorem extras_carried_top (p : Package) (d : Pkg.Doc) (hl : load p = some d) (e
   rw [hc] at this
   simpa using this
 
+/-! ### Listed members BELOW an object folder (round 6)
+
+The seeded fault class "a name that means something at the top of a package is also given its top-level meaning below
+an object folder" (the preview `Object 1/Thumbnails/thumbnail.png`, its folder entry, an object's own `mimetype`,
+`META-INF/manifest.xml`, `meta.xml` ...).  In the model the dispatch compares the names with a special meaning against the
+FULL path, so below an object folder only pictures and the parsed parts are interpreted. -/
+
+/-- a path below an object folder (it starts with `O`) is none of the full paths the dispatch knows -/
+theorem below_object_ne (P' rest t : Str) (ht : t.head? ≠ some 79) : ((79 :: P') ++ rest == t) = false := by
+  rw [beq_eq_false_iff_ne]
+  intro h
+  rw [← h] at ht
+  simp at ht
+
+/-- **C05 (isKept_below_object)**: for an entry below an object folder `P` ("Object …/"), the dispatch keeps EVERY
+    listed member as it is, except pictures and the parts it parses (content / styles / settings.xml, the folder entry
+    itself): whatever the name below the folder is - `Thumbnails/thumbnail.png`, `Thumbnails/`, `mimetype`,
+    `META-INF/manifest.xml`, `meta.xml`, `layout-cache` ... -/
+theorem isKept_below_object (P rest mt : Str) (hO : P.head? = some 79) :
+    isKept P (P ++ rest, mt) = (!isPicturePath rest && !isParsedPart rest) := by
+  obtain ⟨P', rfl⟩ : ∃ P', P = 79 :: P' := by
+    cases P with
+    | nil => simp at hO
+    | cons a P' => simp at hO; exact ⟨P', by rw [hO]⟩
+  have hd : ((79 :: P') ++ rest).drop (79 :: P').length = rest := List.drop_left
+  unfold isKept isRegenerated
+  simp only [hd]
+  rw [below_object_ne P' rest sThumb (by decide), below_object_ne P' rest sMeta (by decide),
+      below_object_ne P' rest sSlash (by decide), below_object_ne P' rest sThumbDir (by decide),
+      below_object_ne P' rest sMimetype (by decide), below_object_ne P' rest sManifestPath (by decide)]
+  simp
+
+/-- **C05 (object_member_carried)**: a listed member `P ++ rest` that the chain of object folders assigns to the
+    sub-document in `P` ("Object …/", any depth) and that is neither a picture nor a parsed part of that sub-document is
+    listed in the re-saved package under the same path with the same media type and, unless it is a folder name, stored
+    with the very bytes of the source - in particular the object's own preview `Thumbnails/thumbnail.png` and the folder
+    entry `Thumbnails/` (`object_preview_carried`). -/
+theorem object_member_carried (p : Package) (d : Pkg.Doc) (hl : load p = some d) (P rest mt : Str)
+    (he : (P ++ rest, mt) ∈ manifestlist p.manifest)
+    (hc : chainOf ((manifestlist p.manifest).map (·.1)) (P ++ rest) = P) (hO : P.head? = some 79)
+    (hpic : isPicturePath rest = false) (hpart : isParsedPart rest = false) (hs : rest ≠ sDocSig) :
+    (∃ fl, (⟨P ++ rest, mt, fl⟩ : ME) ∈ (save d).man) ∧
+    (rest.getLast? ≠ some 47 →
+      ∃ b, zread p.members (P ++ rest) = some b ∧ (⟨P ++ rest, .deflated, [], .bytes b⟩ : ZE) ∈ (save d).zip) := by
+  have hd : (P ++ rest).drop P.length = rest := List.drop_left
+  have := extras_carried p d hl (P ++ rest, mt) he
+    (by simp only [hc]; rw [isKept_below_object P rest mt hO, hpic, hpart]; rfl)
+    (by simp only [hc, hd]; exact hs)
+  simp only [hc, hd] at this
+  exact this
+
+/-- the preview image of an embedded object and its folder entry -/
+theorem object_preview_carried (p : Package) (d : Pkg.Doc) (hl : load p = some d) (P mt : Str)
+    (he : (P ++ sThumb, mt) ∈ manifestlist p.manifest)
+    (hc : chainOf ((manifestlist p.manifest).map (·.1)) (P ++ sThumb) = P) (hO : P.head? = some 79) :
+    (∃ fl, (⟨P ++ sThumb, mt, fl⟩ : ME) ∈ (save d).man) ∧
+    ∃ b, zread p.members (P ++ sThumb) = some b ∧ (⟨P ++ sThumb, .deflated, [], .bytes b⟩ : ZE) ∈ (save d).zip := by
+  have h := object_member_carried p d hl P sThumb mt he hc hO (by decide) (by decide) (by decide)
+  exact ⟨h.1, h.2 (by decide)⟩
+
+/-- the hypotheses are satisfiable: "Object 1/" is such a folder, and `Thumbnails/` below it is kept too -/
+example : isKept [79, 98, 106, 101, 99, 116, 32, 49, 47] ([79, 98, 106, 101, 99, 116, 32, 49, 47] ++ sThumbDir, []) = true := by
+  rw [isKept_below_object _ _ _ (by decide)]; decide
+
 end OdfModel.Props.C05
